@@ -67,6 +67,8 @@ def gen_file(rng, tier, i, mode):
         opts["replace_parens"] = True
         paren = True
     allow = cm.word_classes_for(enc, paren=paren)
+    if fmt != "export" and enc != "latin-1":
+        allow.append("uspace")          # NBSP & co.: token characters, not separators
     continuous = fmt == "brackets"
     k = model.swarm_knobs(rng, tier, allow=allow, continuous=continuous)
     if fmt in ("brackets", "discobrackets") and "paren" in k["words"]:
